@@ -63,7 +63,7 @@ func main() {
 		rel, _ := filepath.Rel(repoAbs, path)
 		if fi.IsDir() {
 			base := fi.Name()
-			if rel != "." && (strings.HasPrefix(base, ".") || base == "cmd" || base == "testdata" || base == "verifsync") {
+			if rel != "." && (strings.HasPrefix(base, ".") || base == "cmd" || base == "testdata" || base == "verifsync" || base == "verifatomic") {
 				return filepath.SkipDir
 			}
 			return nil
@@ -80,33 +80,59 @@ func main() {
 		if err != nil {
 			return fmt.Errorf("parse %s: %w", path, err)
 		}
-		var spec *ast.ImportSpec
+		var spec, aspec *ast.ImportSpec
 		for _, is := range f.Imports {
-			if p, _ := strconv.Unquote(is.Path.Value); p == "sync" {
+			switch p, _ := strconv.Unquote(is.Path.Value); p {
+			case "sync":
 				spec = is
+			case "sync/atomic":
+				aspec = is
 			}
 		}
-		if spec == nil {
+		if spec == nil && aspec == nil {
 			return nil
 		}
 		alias := "sync"
-		if spec.Name != nil {
+		if spec != nil && spec.Name != nil {
 			alias = spec.Name.Name
 		}
-		// byte-exact replacement of the import spec, keeping line structure
-		start := fset.Position(spec.Pos()).Offset
-		end := fset.Position(spec.End()).Offset
-		repl := alias + ` "github.com/ohler55/ojg/verifsync"`
-		if alias == "_" || alias == "." {
-			return fmt.Errorf("%s: unsupported sync import alias %q", path, alias)
+		// byte-exact replacement of the import specs, keeping line structure (the later one first so that
+		// the offsets of the earlier one stay valid)
+		type edit struct {
+			start, end int
+			repl       string
 		}
-		nsrc := string(src[:start]) + repl + string(src[end:])
+		var edits []edit
+		if spec != nil {
+			if alias == "_" || alias == "." {
+				return fmt.Errorf("%s: unsupported sync import alias %q", path, alias)
+			}
+			edits = append(edits, edit{fset.Position(spec.Pos()).Offset, fset.Position(spec.End()).Offset, alias + ` "github.com/ohler55/ojg/verifsync"`})
+		}
+		if aspec != nil {
+			aalias := "atomic"
+			if aspec.Name != nil {
+				aalias = aspec.Name.Name
+			}
+			if aalias == "_" || aalias == "." {
+				return fmt.Errorf("%s: unsupported sync/atomic import alias %q", path, aalias)
+			}
+			edits = append(edits, edit{fset.Position(aspec.Pos()).Offset, fset.Position(aspec.End()).Offset, aalias + ` "github.com/ohler55/ojg/verifatomic"`})
+		}
+		sort.Slice(edits, func(i, j int) bool { return edits[i].start > edits[j].start })
+		nsrc := string(src)
+		for _, e := range edits {
+			nsrc = nsrc[:e.start] + e.repl + nsrc[e.end:]
+		}
 		n++
 		dst := filepath.Join(*out, fmt.Sprintf("f%03d_%s", n, strings.ReplaceAll(rel, string(filepath.Separator), "_")))
 		if err := os.WriteFile(dst, []byte(nsrc), 0o644); err != nil {
 			return err
 		}
 		replace[path] = dst
+		if spec == nil {
+			return nil
+		}
 
 		// collect package-level pools, mutexes and empty-map caches declared in this file
 		dir := filepath.Dir(path)
@@ -198,6 +224,11 @@ func main() {
 	for _, sf := range shimFiles {
 		abs, _ := filepath.Abs(sf)
 		replace[filepath.Join(repoAbs, "verifsync", filepath.Base(sf))] = abs
+	}
+	atomicFiles, _ := filepath.Glob(filepath.Join(*shim, "verifatomic", "*.go"))
+	for _, sf := range atomicFiles {
+		abs, _ := filepath.Abs(sf)
+		replace[filepath.Join(repoAbs, "verifatomic", filepath.Base(sf))] = abs
 	}
 
 	// restart hooks
@@ -314,7 +345,7 @@ func lazyState(repoAbs string, pkgs map[string]*pkgInfo) error {
 		rel, _ := filepath.Rel(repoAbs, path)
 		if fi.IsDir() {
 			base := fi.Name()
-			if rel != "." && (strings.HasPrefix(base, ".") || base == "cmd" || base == "testdata" || base == "verifsync") {
+			if rel != "." && (strings.HasPrefix(base, ".") || base == "cmd" || base == "testdata" || base == "verifsync" || base == "verifatomic") {
 				return filepath.SkipDir
 			}
 			return nil
